@@ -252,8 +252,8 @@ func checkCase(r *kit.Run, d *Data) {
 
 func main() {
 	kit.Main("C17", "exploration", func(r *kit.Run) {
-		r.Rule("Every data set of the finite product in gen.go (families node, unint-key, way, route, route-topology, area, other, mixed; " +
-			"choices: tag class, located, role, way shape, missing-node subset, coordinate source, metadata pattern, member order and direction, relation kind) " +
+		r.Rule("Every data set of the finite product in gen.go (families node, unint-key, way, route, route-long, route-topology, area, other, nested, mixed; " +
+			"choices: tag class, located, role, way shape, missing-node subset, coordinate source, metadata pattern, member order and direction, relation kind, relation-in-relation membership with and without ids shared across kinds) " +
 			"is converted under all 16 option sets; one evaluation = (data set, option set). A case is non-trivial when the conversion emitted at least one feature; " +
 			"it is distinct by the hash of the data set content (not its name) plus the option set.")
 		r.Assume("Way.Polygon() decides which ways are areas (checked by C18); orb/geojson marshalling shows the feature collection faithfully; " +
